@@ -96,6 +96,8 @@ class SyncWorld:
                 self.server.disconnect(e[1])
             elif k == 'yield':
                 self.server.sleep(0)
+            elif k == 'sleep':
+                self.server.sleep(e[1])
             elif k == 'save':
                 self.server.save_session(e[1], e[2])
             else:
